@@ -50,11 +50,15 @@ LEVEL_TEXT = ("Lean 4 theorems (all frames / partitionings / hash functions / k 
               "aggregate: output p = pandas' result restricted to the keys hashing to p; whole result = pandas' as a "
               "multiset), drop_duplicates_keys_any_shuffle (unique / nunique / distinct keys right for ANY row order inside "
               "the shuffled partitions), drop_duplicates_arrival_order_refuted (which duplicate survives is NOT pandas' for "
-              "arrival-order shuffles: the recorded finding for shuffle_method='disk'). VALIDATED ONLY (differential tie, "
-              "no theorem): that the partd-based DiskShuffle delivers every row to the partition named by _partitions "
-              "(the hypothesis under which the sort theorems apply to it); multi-column sort keys and non-numeric keys "
-              "(strings, categoricals: API level vs pandas); quantile divisions (any division vector is covered by the "
-              "theorems, that they balance partitions is not claimed); the optimizer rewrites around these expressions.")
+              "arrival-order shuffles: the recorded finding for shuffle_method='disk'). DISK: the partd shuffle is modelled as "
+              "diskShuffle arrival (whole per-partition pieces collected in the order `arrival` in which the scheduler "
+              "appended the partitions); for EVERY permutation `arrival`: disk_shuffle_spec (nOut outputs, output p = the rows "
+              "with target p in some order, multiset preserved), sort_values_disk (globally ordered permutation), "
+              "drop_duplicates_disk_keys (distinct keys right). VALIDATED ONLY (differential tie, no theorem): that the real "
+              "disk shuffle IS diskShuffle for some arrival order (every real output is diffed, rows and order, against the "
+              "model for the arrival order read off the outputs); multi-column sort keys and non-numeric keys (strings, "
+              "categoricals: API level vs pandas); the quantile divisions (any division vector is covered by the theorems, "
+              "that they balance partitions is not claimed); the optimizer rewrites around these expressions.")
 LEVEL_NOTE = ("Trusted: Lean kernel + standard axioms; pandas on ONE partition (hash_object as a function of the key cells; "
               "sort_values/sort_index returning a sorted permutation - no tie order is assumed, pandas' default sort is not "
               "stable; drop_duplicates(keep) = the specification dedupFirst/dedupLast, diffed exhaustively on short frames; "
@@ -72,8 +76,8 @@ ASSUMPTIONS = ["hash_object_dispatch is a function of the row's key cells (equal
                "per-partition pandas sort_values / sort_index return a sorted permutation of the partition (any tie order)",
                "per-partition pandas drop_duplicates(keep=first|last) keeps exactly the first|last row of every key, order kept "
                "(diffed against the Lean specification: exhaustive over key sequences of length <= 6 over 3 letters in thorough)",
-               "the disk shuffle delivers every row to the partition named by its _partitions value, in unspecified order "
-               "(checked per case: rows per partition as sets)",
+               "partd returns the pieces of a partition in the order they were appended, each input partition is appended once "
+               "(checked per case: the real outputs equal diskShuffle for the arrival order read off the outputs)",
                "divisions passed to set_partitions_pre are non-decreasing (SortValues._lower sorts them; check_divisions for user "
                "divisions): the model's bisectRight equals searchsorted(side='right') only then"]
 TRUSTED = ["pandas group_split / hash_object / searchsorted / sort_values / drop_duplicates on a single partition",
@@ -498,8 +502,14 @@ def case_sort_model(ctx, inp):
     nodes = list(low.find_operations(_SetPartitionsPreSetIndex))
     shuffles = list(low.find_operations(SimpleShuffle))
     in_parts = [_lean_keys(p) for p in _parts_of(keys, cuts)]
-    if nodes:
-        divs = [math.ceil(float(x)) for x in nodes[0].new_divisions]     # integer keys: d <= v  <=>  ceil(d) <= v
+    raw_divs = [float(x) for x in nodes[0].new_divisions] if nodes else []
+    if any(x != x for x in raw_divs):
+        # quantiles of a (nearly) all-NaN column: NaN divisions (numpy orders NaN last, every key goes to partition 0);
+        # outside the model (divisions are naturals there) - the property oracles below still apply
+        ctx.branch("sortmodel-nan-divisions")
+        model = None
+    elif nodes:
+        divs = [math.ceil(x) for x in raw_divs]     # integer keys: d <= v  <=>  ceil(d) <= v
         if any(x < 0 for x in divs):
             return
         k, S = _stage_of_shuffle(shuffles[0], len(in_parts)) if shuffles else (0, 0)
@@ -515,8 +525,9 @@ def case_sort_model(ctx, inp):
         m_pre = ctx.lean(Sym("calc-presorted"), asc, in_parts)[0]
         ctx.eq("sort_values: presorted shortcut taken", m_pre, not nodes)
     real = [[[_nan_none(x) for x in (p.k if op == "sort_values" else p.index)], sorted(int(v) for v in p.v)] for p in parts]
-    exp = [[[kk for kk, _ in p], sorted(i for _, i in p)] for p in model]
-    ctx.eq(f"{op}: partitions (key sequence, row set) vs the pipeline model", exp, real)
+    if model is not None:
+        exp = [[[kk for kk, _ in p], sorted(i for _, i in p)] for p in model]
+        ctx.eq(f"{op}: partitions (key sequence, row set) vs the pipeline model", exp, real)
     # property oracles on the real output
     flat_keys = [kk for ks, _ in real for kk in ks]
     ref = df.sort_values("k", ascending=asc, na_position=nap, kind="stable")
@@ -624,7 +635,9 @@ def case_sort_api(ctx, inp):
                     ctx.fail("sort_values is not globally ordered like pandas", observed=keys_got[:30], expected=keys_exp[:30])
                 if sorted(got.v) != list(range(len(df))):
                     ctx.fail("sort_values does not keep exactly the input rows", observed=sorted(got.v)[:30])
-                ctx.branch("sort_values-" + ("asc" if inp["ascending"] else "desc") + "-" + inp["na_position"]
+                asc0 = inp["ascending"] if isinstance(inp["ascending"], bool) else inp["ascending"][0]
+                ctx.branch("sort_values-" + ("asc" if asc0 else "desc") + ("-mixed" if isinstance(inp["ascending"], list) else "")
+                           + "-" + inp["na_position"]
                            + ("-multikey" if len(by) > 1 else "") + ("-presorted" if inp.get("presorted") else ""))
             else:
                 sub = df[df.k.notna()] if inp["kind"] in ("float", "str") else df
@@ -929,10 +942,16 @@ def _gen_sort_api(ctx):
         keys = _rand_keys(rng, n, kind)
         if kind == "str":
             keys = [k if k is not None else 0 for k in keys]    # null strings: dask rejects / limited support (documented)
-        yield "sort_api", {"keys": keys, "kind": kind, "n_in": rng.randint(1, 6),
-                           "op": rng.choice(["sort_values", "set_index"]), "ascending": rng.random() < 0.6,
-                           "na_position": rng.choice(["last", "first"]), "n_out": rng.choice([None, None, rng.randint(1, 6)]),
-                           "method": rng.choice([None, "tasks", "disk"])}
+        inp = {"keys": keys, "kind": kind, "n_in": rng.randint(1, 6),
+               "op": rng.choice(["sort_values", "set_index"]), "ascending": rng.random() < 0.6,
+               "na_position": rng.choice(["last", "first"]), "n_out": rng.choice([None, None, rng.randint(1, 6)]),
+               "method": rng.choice([None, "tasks", "disk"])}
+        if inp["op"] == "sort_values" and rng.random() < 0.35:
+            # several sort columns (routing uses the first one only), optionally with one direction per column
+            inp["by"] = ["k", "k3"]
+            if rng.random() < 0.5:
+                inp["ascending"] = [rng.random() < 0.5, rng.random() < 0.5]
+        yield "sort_api", inp
 
 
 def _gen_sort_presorted_api(ctx):
@@ -967,7 +986,11 @@ def _gen_dedup_api(ctx):
 
 
 def generate(ctx):
-    yield from _interleave([(_gen_layer(ctx), 1), (_gen_group(ctx), 6), (_gen_spp(ctx), 6), (_gen_shuffle_api(ctx), 2),
+    # the cheap function-level streams (with the exhaustive small spaces at their head) get a larger share, so that
+    # the exhaustive parts finish well inside the thorough budget
+    t = ctx.thorough()
+    yield from _interleave([(_gen_layer(ctx), 1), (_gen_group(ctx), 8 if t else 6), (_gen_spp(ctx), 8 if t else 6),
+                            (_gen_shuffle_api(ctx), 2),
                             (_gen_task_expr(ctx), 1), (_gen_presorted(ctx), 1), (_gen_sort_model(ctx), 1),
-                            (_gen_dedup_fn(ctx), 3), (_gen_dedup_model(ctx), 1), (_gen_sort_api(ctx), 1),
+                            (_gen_dedup_fn(ctx), 20 if t else 3), (_gen_dedup_model(ctx), 1), (_gen_sort_api(ctx), 1),
                             (_gen_sort_presorted_api(ctx), 1), (_gen_dedup_api(ctx), 1)])
